@@ -31,9 +31,16 @@ type vxChain struct {
 	blocks            []vxBlock
 	hasL1             bool
 	l1                uint64
+	richHead          *core.Header           // if set: the stored header of the head block, every field filled in
+	richCommitments   *core.BlockCommitments // if set: the stored commitments of the head block
 }
 
 func (c *vxChain) header(i int) *core.Header {
+	if c.richHead != nil && i == len(c.blocks)-1 {
+		h := *c.richHead
+		h.Number, h.Hash, h.TransactionCount = uint64(i), &c.blocks[i].hash, c.blocks[i].txCount
+		return &h
+	}
 	return &core.Header{Number: uint64(i), Hash: &c.blocks[i].hash, TransactionCount: c.blocks[i].txCount}
 }
 
@@ -125,6 +132,9 @@ func (c *vxChain) TransactionByBlockNumberAndIndex(n, idx uint64) (core.Transact
 func (c *vxChain) BlockCommitmentsByNumber(n uint64) (*core.BlockCommitments, error) {
 	if n >= uint64(len(c.blocks)) {
 		return nil, db.ErrKeyNotFound
+	}
+	if c.richCommitments != nil && n == uint64(len(c.blocks)-1) {
+		return c.richCommitments, nil
 	}
 	return &core.BlockCommitments{}, nil
 }
